@@ -2,6 +2,7 @@ package main
 
 import (
 	"fmt"
+	"go/types"
 	"strings"
 
 	"golang.org/x/tools/go/ssa"
@@ -211,6 +212,19 @@ func runC06(c *Ctx, r *Report, tier string) {
 		for si := range b.Succs {
 			if l, ok := c.edgeLit(b, si); ok {
 				lits[l.Term] = true
+			}
+		}
+		// comparisons folded into a named boolean or a switch case (`a && (b || c)` evaluated as a value)
+		for _, in := range b.Instrs {
+			if bo, ok := in.(*ssa.BinOp); ok {
+				if bt, ok := bo.Type().Underlying().(*types.Basic); ok && bt.Info()&types.IsBoolean != 0 {
+					lits[c.cond(bo).Term] = true
+				}
+			}
+			if call, ok := in.(*ssa.Call); ok {
+				if bt, ok := call.Type().Underlying().(*types.Basic); ok && bt.Info()&types.IsBoolean != 0 {
+					lits[c.cond(call).Term] = true
+				}
 			}
 		}
 	}
